@@ -26,6 +26,9 @@ OMEN_A = dict(R.DEFAULT_OMEN, keyspace={1: 3, 2: 3, 3: 2}, omen_prob=[(1, .125),
 
 def specs(tier):
     t0, t1 = D.TERMINALS
+    tie = dict(t0)
+    tie['C'] = {1: [('L', .5), ('U', .5)], 2: [('LL', .25), ('UL', .25), ('LU', .25), ('UU', .25)]}
+    tie['A'] = {1: [('a', .5), ('b', .5)], 2: [('ab', .5), ('cd', .5)]}
     cands = [
         (t0, [('M', .5), ('A1D1', .3), ('D2', .2)], OMEN_A),
         (t0, [('A1D1', .5), ('M', .3), ('D2', .2)], OMEN_B),
@@ -34,6 +37,7 @@ def specs(tier):
         (t1, [('A1O1A2', .7), ('M', .2), ('Y1O1', .1)], OMEN_A),
         (t0, [('D1', 1.0)], OMEN_A),
         (t0, [('A2A1', .6), ('A2D1', .4)], OMEN_A),   # multi-mask C2 group followed by more variables
+        (tie, [('A2D1', .6), ('A1A2', .4)], OMEN_A),  # mask groups of 4 and 2 equally probable masks, not in last position
     ]
     if tier == 'thorough':
         cands += [
